@@ -10,6 +10,14 @@
  *   MODE <t> init|lazy                 lazy: no core_init(), relies on core_set_thread_initializer
  *   THREAD <t> <item> [args]           script lines of thread t (step library of ctxsteps.h)
  *   SEG <t> <nblocks>                  schedule: run thread (t mod #unfinished) for nblocks blocks
+ *   RR <n> <len> <seed>                n round-robin slices of 1..len blocks
+ *   WPARK first|event <i> <m> <cap> <rrn> <rrlen> <seed>
+ *                                      race-directed: the thread that reaches the i-th distinct watched block for the
+ *                                      first time in the process (first) / causes the i-th watch event (event) is parked
+ *                                      in front of that block; another thread runs until m further watch events have
+ *                                      happened (at most cap blocks), then rrn round-robin slices of 1..rrlen blocks;
+ *                                      then the SEG/RR schedule goes on.  Watched blocks: <executor>.watch (sim/watch.py),
+ *                                      the blocks of library code that touch writable static storage that is not thread-local.
  * Transcript: "THR <t>" + that thread's lines, then "SCHED switches=<n> blocks=<n> segs=<n>".
  */
 #define SIM_THREADS
@@ -45,6 +53,19 @@ static volatile long budget;
 static volatile int cur = -1;			/* index of the thread holding the baton */
 static volatile int sched_on = 0;
 static long n_switch, n_blocks;
+
+/* watch list (sorted callback return addresses) and race-directed parking */
+#define MAXWATCH 4096
+#define MAXWP 16
+static uintptr_t watch_pc[MAXWATCH];
+static unsigned char watch_seen[MAXWATCH];
+static int n_watchpc;
+static long n_watch, n_wfirst, n_wpark;
+static struct { int first; long idx, m, cap, rrn, rrlen; uint64_t seed; int fired; } wps[MAXWP];
+static int nwp;
+static int inj_phase;				/* 0 none, 1 another thread runs up to the target, 2 round-robin slices */
+static long inj_target, inj_rr_n, inj_rr_len;
+static uint64_t inj_seed;
 static sem_t main_sem;
 static __thread int my_index = -1;
 
@@ -70,9 +91,27 @@ static int barrier_open_if_complete(void) {
 	return 0;
 }
 
+/* a live thread other than self, the next one in index order; -1 if there is none */
+static int pick_other(int self) {
+	for (int d = 1; d < NTHR; d++) {
+		int i = (self + d) % NTHR;
+		if (T[i].used && !T[i].finished && !T[i].at_barrier) return i;
+	}
+	return -1;
+}
+
 static int next_slice(void);
 static int next_slice(void) {
 	(void)barrier_open_if_complete();
+	if (inj_phase == 1) inj_phase = 2;		/* the cap ran out, or the running thread finished / reached a barrier */
+	if (inj_phase == 2) {
+		if (inj_rr_n > 0) {
+			inj_rr_n--;
+			budget = 1 + (long)(sim_mix64(&inj_seed) % (uint64_t)(inj_rr_len > 0 ? inj_rr_len : 1));
+			return pick_target((int)(rr_count++ & 0x3fffffff));
+		}
+		inj_phase = 0;
+	}
 	if (seg_pos < nsegs && segs[seg_pos].t == -2) {
 		if (segs[seg_pos].n > 0) {
 			segs[seg_pos].n--;
@@ -129,9 +168,55 @@ static void barrier_wait(int self) {
 	hand_over(self, 0);
 }
 
+static int watch_find(uintptr_t pc) {
+	int lo = 0, hi = n_watchpc - 1;
+	while (lo <= hi) {
+		int mid = (lo + hi) / 2;
+		if (watch_pc[mid] == pc) return mid;
+		if (watch_pc[mid] < pc) lo = mid + 1; else hi = mid - 1;
+	}
+	return -1;
+}
+
+/* A watch event of the running thread.  Returns 1 if the thread was parked here and has been resumed since. */
+static int watch_event(int self, int wi) {
+	long ev = n_watch++;
+	int first = !watch_seen[wi];
+	long ord = -1;
+	if (first) { watch_seen[wi] = 1; ord = n_wfirst++; }
+	if (inj_phase == 1) {
+		if (n_watch > inj_target) { inj_phase = 2; budget = 0; }
+		return 0;
+	}
+	if (inj_phase != 0) return 0;
+	for (int i = 0; i < nwp; i++) {
+		if (wps[i].fired) continue;
+		if (wps[i].first ? (first && ord == wps[i].idx) : (ev == wps[i].idx)) {
+			int t = pick_other(self);
+			wps[i].fired = 1;
+			if (t < 0) return 0;
+			n_wpark++;
+			inj_phase = 1;
+			inj_target = n_watch + wps[i].m;
+			inj_rr_n = wps[i].rrn; inj_rr_len = wps[i].rrlen; inj_seed = wps[i].seed;
+			budget = wps[i].cap > 0 ? wps[i].cap : 1;
+			n_switch++;
+			cur = t;
+			sem_post(&T[t].sem);
+			sem_wait(&T[self].sem);
+			return 1;
+		}
+	}
+	return 0;
+}
+
 void __sanitizer_cov_trace_pc(void) {
 	if (!sched_on || my_index < 0 || my_index != cur) return;
 	n_blocks++;
+	if (n_watchpc) {
+		int wi = watch_find((uintptr_t)__builtin_return_address(0));
+		if (wi >= 0 && watch_event(my_index, wi)) return;
+	}
 	if (--budget > 0) return;
 	hand_over(my_index, 0);
 }
@@ -169,8 +254,25 @@ static void *thread_main(void *arg) {
 	return NULL;
 }
 
+static void watch_load(void) {
+	char path[4200];
+	ssize_t n = readlink("/proc/self/exe", path, 4096);
+	if (n <= 0) return;
+	path[n] = 0;
+	strcat(path, ".watch");
+	FILE *f = fopen(path, "r");
+	char ln[512];
+	if (!f) return;
+	while (n_watchpc < MAXWATCH && fgets(ln, sizeof(ln), f)) {
+		uintptr_t a = (uintptr_t)strtoull(ln, NULL, 16);
+		if (a) watch_pc[n_watchpc++] = a;		/* the file is sorted */
+	}
+	fclose(f);
+}
+
 static void engine_boot(void) {
 	sem_init(&main_sem, 0, 0);
+	watch_load();
 	core_set_thread_initializer(lazy_init, NULL);
 }
 
@@ -179,6 +281,8 @@ static void engine_run(void) {
 	memset(T, 0, sizeof(T));
 	nsegs = seg_pos = 0; rr_count = 0;
 	n_switch = n_blocks = 0;
+	n_watch = n_wfirst = n_wpark = 0; nwp = 0; inj_phase = 0;
+	memset(watch_seen, 0, sizeof(watch_seen));
 	while ((line = plan_next_line()) != NULL) {
 		if (strncmp(line, "THREAD ", 7) == 0) {
 			int t = atoi(line + 7) % NTHR;
@@ -194,6 +298,20 @@ static void engine_run(void) {
 			segs[nsegs].len = strtol(p, &p, 10);
 			segs[nsegs].seed = strtoull(p, NULL, 10);
 			nsegs++;
+		} else if (strncmp(line, "WPARK ", 6) == 0 && nwp < MAXWP) {
+			char *p = line + 6;
+			wps[nwp].first = strncmp(p, "first", 5) == 0;
+			p = strchr(p, ' ');
+			if (p) {
+				wps[nwp].idx = strtol(p, &p, 10);
+				wps[nwp].m = strtol(p, &p, 10);
+				wps[nwp].cap = strtol(p, &p, 10);
+				wps[nwp].rrn = strtol(p, &p, 10);
+				wps[nwp].rrlen = strtol(p, &p, 10);
+				wps[nwp].seed = strtoull(p, NULL, 10);
+				wps[nwp].fired = 0;
+				nwp++;
+			}
 		} else if (strncmp(line, "SEG ", 4) == 0 && nsegs < MAXSEG) {
 			char *p = line + 4;
 			segs[nsegs].t = (int)strtol(p, &p, 10);
@@ -232,5 +350,6 @@ static void engine_run(void) {
 		sim_sys_free(T[i].out);
 		sem_destroy(&T[i].sem);
 	}
-	tr_printf("SCHED switches=%ld blocks=%ld segs=%d used=%d\n", n_switch, n_blocks, nsegs, seg_pos);
+	tr_printf("SCHED switches=%ld blocks=%ld segs=%d used=%d watched=%d wevents=%ld wfirst=%ld wparks=%ld\n", n_switch, n_blocks, nsegs, seg_pos,
+			n_watchpc, n_watch, n_wfirst, n_wpark);
 }
